@@ -793,7 +793,8 @@ impl Element {
                             (ElementKind::Normal { .. }, "class") => AttrPrefixKind::ClassString,
                             (ElementKind::Normal { .. }, "style") => AttrPrefixKind::StyleString,
                             (ElementKind::Normal { .. }, x) | (ElementKind::Slot { .. }, x)
-                                if x.starts_with("data-") && x.len() > "data-".len() =>
+                                if x.starts_with("data-")
+                                    && x["data-".len()..].chars().any(|c| c != '-') =>
                             {
                                 AttrPrefixKind::DataHyphen
                             }
